@@ -200,12 +200,47 @@ func TestC19(t *testing.T) {
 				}
 				sum.Tags["cli_cross_checked"]++
 			}
+			if kind == "" && n%25 == 12 {
+				// main() itself, twice in this process: first with other flags (and every rule as
+				// an alternate entrypoint), then with the flags of the case - whatever main() keeps
+				// between calls must not show in the second output
+				if d := mainTwice(dir, c, g, out); d != "" {
+					kind, diff = "output_depends_on_history", d
+				}
+				sum.Tags["main_called_twice"]++
+			}
 		}
 		if kind != "" {
 			sum.fail(kind, diff, c)
 			rt.Fatalf("%s: %s", kind, diff)
 		}
 	})
+}
+
+// mainTwice calls main() in this process with other flags and then with the flags of the case.
+func mainTwice(dir string, c *c19Case, g *gspec.Grammar, want []byte) string {
+	in := filepath.Join(dir, "g2.peg")
+	os.WriteFile(in, []byte(c.Text), 0o644)
+	other := c.Flags
+	other.Nolint, other.OptimizeGrammar = !other.Nolint, true
+	other.AltEntries = nil
+	for _, r := range g.Rules {
+		other.AltEntries = append(other.AltEntries, r.Name)
+	}
+	if r := runMain(dir, append(other.args(), in), nil, 60*time.Second); r.TimedOut {
+		return "" // inconclusive
+	}
+	r := runMain(dir, append(c.Flags.args(), in), nil, 60*time.Second)
+	if r.TimedOut {
+		return ""
+	}
+	if r.Panic != "" || (r.Exited && r.Exit != 0) {
+		return fmt.Sprintf("main() failed on its second call in the process (exit %d, panic %q, stderr %s) although the build succeeds", r.Exit, r.Panic, truncT(r.Stderr, 200))
+	}
+	if !bytes.Equal(r.Stdout, want) {
+		return fmt.Sprintf("main() called after a call with other flags writes different bytes (%d vs %d, first difference at %d)", len(r.Stdout), len(want), firstDiffAt(r.Stdout, want))
+	}
+	return ""
 }
 
 // cliRepeat runs the command three times and compares with the in-process bytes.
